@@ -12,7 +12,7 @@ right-hand sides, zero coefficients anywhere.  The conversion uses no tolerance 
 the maps `image` (`p = max x 0`, `m = max (−x) 0`, slacks = residuals) and `preimage` (`x = p − m`):
 `Proofs/StdMain.lean`.
 -/
-import Rooc.Proofs.StdExtra
+import Rooc.Proofs.StdDomain
 import Mathlib.Algebra.Order.Field.Rat
 import Mathlib.Data.Rat.Floor
 import Mathlib.Tactic.NormNum
@@ -136,6 +136,15 @@ theorem free_split_positional {α : Type} [Arith α] (fl : List Bool) (r : List 
       some (StdLayout.keep fl r ++ StdLayout.pairs StdLayout.pm fl r) :=
   StdLayout.split_closed fl r h
 
+/-- **domain_order_irrelevant.**  `to_standard_form` looks every variable up BY NAME: the order of the domain map plays no
+role — two domains with the same entries (distinct names) in any order give the same standard form, column by column.
+(Every compiled model has a domain order different from its variable order: the linearizer sorts the names.)  Stated for
+any number type, so also for the `Float` instantiation that is diffed against the code. -/
+theorem domain_order_irrelevant {α : Type} [Arith α] (lm : LinModel α) (d1 d2 : List (DomVar α)) (hp : d1.Perm d2)
+    (hnd : (d1.map (·.name)).Nodup) :
+    standardize { lm with domain := d1 } = standardize { lm with domain := d2 } :=
+  StdDomain.standardize_perm lm d1 d2 hp hnd
+
 /-- **keeps_every_row.**  The standard form has one row per row of the model plus one per bound row:
 `StandardLinearModel::new` and `normalize_constraint` drop nothing — whatever the coefficients of the row are. -/
 theorem keeps_every_row (lm : LinModel (Ext K)) (hW : WF lm) {sm : StdModel (Ext K)} (hs : standardize lm = .ok sm) :
@@ -240,6 +249,10 @@ example : ∃ sm, standardize lmC = .ok sm ∧ ¬ ∃ y, StdFeasible sm y := by
   refine ⟨sm, hs, contradiction_row_kept lmC hW hs
     { name := "", coeffs := [.fin 0, .fin 0], cmp := .eq, rhs := .fin 5 } (by simp [lmC]) (by simp [toK]) ?_⟩
   simp [cmpHolds, toK]
+
+/-- `domain_order_irrelevant` applies to `lm0` with its two domain entries swapped. -/
+example : standardize { lm0 with domain := lm0.domain.reverse } = standardize lm0 :=
+  (domain_order_irrelevant lm0 lm0.domain lm0.domain.reverse (List.reverse_perm _).symm (by decide)).symm
 
 end examples
 end Rooc.Props.C13
